@@ -1322,6 +1322,16 @@ class Config:  # pylint: disable=too-many-instance-attributes
                     value = sensitive_mask * len(str(field_value))
                 else:
                     value = sensitive_mask
+            elif (
+                isinstance(field_value, list)
+                and field_value
+                and all(isinstance(item, Config) for item in field_value)
+            ):
+                # a list of configurations: render each item with the same options (mask included)
+                value = [
+                    item.to_tree(virtual=virtual, sensitive_mask=sensitive_mask)
+                    for item in field_value
+                ]
             elif isinstance(field, Field):
                 try:
                     value = field.to_basic(self, field_value)
